@@ -197,3 +197,39 @@ Definition expected (fixed : bool) (st0 : state) (c : call) : built :=
 Definition arg_ok (st : state) (a : carg) : bool := match a with ARef o => mem o (s_owned st) | AImm _ => true end.
 Definition call_ok (st : state) (c : call) : bool :=
   forallb (arg_ok st) (map snd (k_attrs c)) && match k_inputs c with Some o => mem o (s_owned st) | None => true end.
+
+(* ------------------------------------------------------------------ equality tests for the correspondence run *)
+Section ListEqb.
+  Variable A : Type.
+  Variable eqb : A -> A -> bool.
+  Fixpoint leqb (a b : list A) : bool :=
+    match a, b with
+    | [], [] => true
+    | x :: a', y :: b' => eqb x y && leqb a' b'
+    | _, _ => false
+    end.
+End ListEqb.
+
+Fixpoint pyval_eqb (a b : pyval) : bool :=
+  match a, b with
+  | PInt x, PInt y | PNpInt x, PNpInt y => Z.eqb x y
+  | PBool x, PBool y => Bool.eqb x y
+  | PFloat x, PFloat y | PGraph x, PGraph y | PVar x, PVar y => x =? y
+  | PText x, PText y | PBytes x, PBytes y => list_eqb N.eqb x y
+  | PNone, PNone | PDtypeBad, PDtypeBad => true
+  | PArr x, PArr y => tensor_eqb x y
+  | PType x, PType y => stype_eqb x y
+  | PDtype x, PDtype y => elem_eqb x y
+  | PList x, PList y => leqb pyval pyval_eqb x y
+  | POther x, POther y => Bool.eqb x y
+  | _, _ => false
+  end.
+
+Definition res_either (model_fixed model_pinned real : res aproto) : bool :=
+  res_eqb model_fixed real || res_eqb model_pinned real.
+
+(* compare what the model's build yields with what was observed on the implementation *)
+Definition built_matches (bf bp : built) (attrs : list (res aproto)) (live : list pyval) (inputs : pyval) : bool * bool * bool :=
+  (leqb _ res_eqb (b_attrs bf) attrs || leqb _ res_eqb (b_attrs bp) attrs,
+   leqb _ pyval_eqb (b_live bf) live,
+   pyval_eqb (b_inputs bf) inputs).
